@@ -105,6 +105,8 @@ type unit struct {
 	prop   func(res *Result) func(t *rapid.T)
 	// direct, if set, runs instead of a rapid property (for digests etc.)
 	direct func(res *Result)
+	// casesDiv divides the configured case count (units whose cases cross a process boundary)
+	casesDiv int
 }
 
 type engine struct {
@@ -175,7 +177,11 @@ func Run(t *testing.T) {
 			u.direct(res)
 		} else {
 			prop := u.prop(res)
-			rr := rapidx.Check(u.check+"/"+u.schema+"/"+u.name, cfg.Cases, seed, shrink, func(t *rapid.T) {
+			ncases := cfg.Cases
+			if u.casesDiv > 1 && ncases/u.casesDiv >= 10 {
+				ncases /= u.casesDiv
+			}
+			rr := rapidx.Check(u.check+"/"+u.schema+"/"+u.name, ncases, seed, shrink, func(t *rapid.T) {
 				res.Cases++
 				prop(t)
 			})
